@@ -1,4 +1,5 @@
 from datetime import datetime, timezone
+from enum import Enum
 from typing import Any, TYPE_CHECKING
 from functools import lru_cache
 from numbers import Number
@@ -68,13 +69,21 @@ def write_struct_dtime(date_time: datetime) -> bytes:
     return value
 
 
+def _to_str(value: Any) -> str:
+    """Convert value to str; an enum member (e.g. enums.Unit.METER) is represented by its value, not its name."""
+
+    if isinstance(value, Enum):
+        value = value.value
+    return str(value)
+
+
 def write_struct_ascii(value: Any) -> bytes:
     """Convert value to str, encode as ASCII, and represent as bytes.
 
     The first bytes are the number of characters in the value (converted to str).
     """
 
-    value_str = str(value)
+    value_str = _to_str(value)
     return write_struct_uvari(len(value_str)) + value_str.encode('ascii')
 
 
@@ -84,7 +93,7 @@ def write_struct_ident(value: Any) -> bytes:
     The first byte (USHORT) is the number of characters in the value, which therefore cannot exceed 255.
     """
 
-    value_str = str(value)
+    value_str = _to_str(value)
     if len(value_str) > 255:
         raise ValueError(f"IDENT value cannot be longer than 255 characters; got {len(value_str)} characters")
     return RepresentationCode.USHORT.convert(len(value_str)) + value_str.encode('ascii')
